@@ -13,7 +13,7 @@ from .c01 import check_export
 PROP = "C02"
 LEVEL = "exploration"
 RUNS = {"quick": 400, "thorough": 20000}
-TIME_CAP = {"quick": 300, "thorough": 1500}
+TIME_CAP = {"quick": 300, "thorough": 900}
 CHUNK = 4          # runs per worker task (cost-aware: keeps the time cap responsive)
 RULE = ("seeded S-7xx logical models (0-3 volumes, 1-4 performances incl. orphans, 1-3 patches, partials of <=4 samples, samples "
         "shared between performances) serialised by an independent writer under a seeded cluster allocator (5 chain-order "
